@@ -130,7 +130,20 @@ def run(chk, prog):
             ok = sp.simplify(coordx - (par - G.AX(ax, "min")) / G.AX(ax, "delta")) == 0
         chk.check(ok, "R1", pf.where, "PhaseSpace::%s() clamps the initial grid coordinate to [0, n-1] (%s)" % (meth, v), "PhaseSpace::%s:clamp" % meth)
     # the tracking file is converted through x()/y()
-    tr = [x for x in A.walk(mainf["body"]) if x.get("k") == "CXXMemberCallExpr" and (x.get("callee") or "").endswith("::push_back") and "trackme" in A.show(A.call_object(x))]
+    # the vectors whose content becomes the tracked set: trackme itself and any local of the same type that is assigned / returned into it
+    feeders = {"trackme"}
+    for y, lhs, op, rhs in A.assignments_in(mainf["body"]):
+        if (A.declref(lhs) or {}).get("name") == "trackme" and A.declref(rhs) is not None:
+            feeders.add(A.declref(rhs)["name"])
+    for y in A.walk(mainf["body"]):
+        if y.get("k") in ("BinaryOperator", "CXXOperatorCallExpr") and y.get("op") == "=":
+            ops_ = y.get("c") if y.get("k") == "BinaryOperator" else y.get("args")
+            if ops_ and len(ops_) == 2 and (A.declref(ops_[0]) or {}).get("name") == "trackme":
+                for z in A.walk(ops_[1]):
+                    if z.get("k") == "DeclRefExpr" and "PhaseSpace::Position" in (z.get("ctype") or z.get("type") or "") and "vector" in (z.get("ctype") or z.get("type") or ""):
+                        feeders.add(z["name"])
+    tr = [x for x in A.walk(mainf["body"]) if x.get("k") == "CXXMemberCallExpr" and (x.get("callee") or "").split("::")[-1] in ("push_back", "emplace_back") and
+          A.call_object(x) is not None and (A.declref(A.call_object(x)) or {}).get("name") in feeders]
     ok = len(tr) == 1 and "grid_t1->x(q)" in A.show(tr[0]).replace(" ", "") and "grid_t1->y(p)" in A.show(tr[0]).replace(" ", "")
     chk.check(ok, "R1", A.loc(mainf, tr[0]) if tr else mainf.where, "initial particle coordinates enter only through PhaseSpace::x()/y()", "main:trackme-init")
     # ---- R2 -------------------------------------------------------------------------------------
